@@ -53,13 +53,17 @@ def main(argv):
     except ModuleNotFoundError as e:
         print("no check for", pid, e)
         return 2
+    rp = None
+    if replay:
+        # a replay file names the seed and tier of the run that found the violation: the same
+        # deterministic exploration is repeated against the current tree
+        with open(replay) as f:
+            rp = json.load(f)
+        seed = rp.get("seed", seed)
+        tier = rp.get("tier", "quick")
     ctx = core.Ctx(pid, tier, seed, mod.LEVEL)
     try:
-        if replay:
-            with open(replay) as f:
-                rp = json.load(f)
-            ctx.seed = rp.get("seed", seed)
-            ctx.tier = rp.get("tier", "quick")
+        if rp is not None:
             ctx.replaying = rp
         mod.run(ctx)
         return ctx.finish()
